@@ -22,13 +22,25 @@ pub const ALPHABET: [&[u8]; 20] = [
     b"\x7f",
 ];
 
+/// Further troublesome symbols used beyond the alphabet named in the property: Unicode white
+/// space of several kinds, other shell metacharacters, C1 controls, lone continuation bytes.
+pub const EXTRA: [&[u8]; 28] = [
+    "\u{a0}".as_bytes(), "\u{3000}".as_bytes(), "\u{2003}".as_bytes(), "\u{85}".as_bytes(), "\u{2028}".as_bytes(),
+    "\u{1680}".as_bytes(), "\u{feff}".as_bytes(), "\u{fffd}".as_bytes(), b"\r", b"\x0b", b"\x0c", b"\x1b", b"\x01", b"|", b"&", b";",
+    b"<", b">", b"(", b")", b"{", b"}", b"[", b"]", b"%", b"+", b"\x80", b"\xc3",
+];
+
 fn strings_upto(len: usize) -> Vec<B> {
+    strings_over(&ALPHABET, len)
+}
+
+fn strings_over(alphabet: &[&[u8]], len: usize) -> Vec<B> {
     let mut out: Vec<B> = vec![];
     let mut level: Vec<Vec<u8>> = vec![vec![]];
     for _ in 0..len {
-        let mut next = Vec::with_capacity(level.len() * ALPHABET.len());
+        let mut next = Vec::with_capacity(level.len() * alphabet.len());
         for s in &level {
-            for a in ALPHABET.iter() {
+            for a in alphabet.iter() {
                 let mut t = s.clone();
                 t.extend_from_slice(a);
                 next.push(t);
@@ -213,6 +225,7 @@ fn sig_of(args: &Vec<B>) -> Vec<String> {
 pub fn arg_strategy(max_len: usize) -> impl Strategy<Value = B> + Clone {
     let sym = prop_oneof![
         6 => (0u16..u16::MAX).prop_map(|i| ALPHABET[pick(i, ALPHABET.len())].to_vec()),
+        3 => (0u16..u16::MAX).prop_map(|i| EXTRA[pick(i, EXTRA.len())].to_vec()),
         2 => (1u8..=255u8).prop_map(|b| vec![b]),
         2 => any::<char>().prop_filter("nul", |c| *c != '\0').prop_map(|c| c.to_string().into_bytes()),
         2 => "[a-zA-Z0-9/._-]{1,6}".prop_map(|s| s.into_bytes()),
@@ -234,7 +247,12 @@ pub fn check(tier: Tier) -> i32 {
 
     // Tier A: bounded-exhaustive single strings, in-process + bash.
     let maxlen = tier.pick(3, 4);
-    let singles = strings_upto(maxlen);
+    let mut singles = strings_upto(maxlen);
+    // plus: every string of <=2 (quick) / <=3 (thorough) symbols over the union with the extra symbols
+    let union: Vec<&[u8]> = ALPHABET.iter().chain(EXTRA.iter()).copied().collect();
+    let more = strings_over(&union, tier.pick(2, 3));
+    let known: std::collections::HashSet<B> = singles.iter().cloned().collect();
+    singles.extend(more.into_iter().filter(|b| !known.contains(b)));
     ctx.set_extra("exhaustive_single_strings", json!({"alphabet": 20, "max_len": maxlen, "count": singles.len()}));
     // batch through bash in chunks handled by workers
     let chunks: Vec<Vec<B>> = singles.chunks(2000).map(|c| c.to_vec()).collect();
@@ -356,13 +374,11 @@ pub fn check(tier: Tier) -> i32 {
     }
 
     // Tier C: random long strings and lists, with shrinking (in-process + bash).
-    let strat = proptest::collection::vec(arg_strategy(40), 1..4);
-    drive(&ctx, "random", tier.pick(4000, 60000), strat, run_case);
-    let long = proptest::collection::vec(arg_strategy(300), 1..2);
-    drive(&ctx, "long", tier.pick(1000, 10000), long, run_case);
+    drive(&ctx, "random", tier.pick(4000, 60000), || proptest::collection::vec(arg_strategy(40), 1..4), run_case);
+    drive(&ctx, "long", tier.pick(1000, 10000), || proptest::collection::vec(arg_strategy(300), 1..2), run_case);
 
     // Clause (5): split never panics on arbitrary text.
-    let text = proptest::collection::vec(
+    let text = || proptest::collection::vec(
         prop_oneof![
             (0u16..u16::MAX).prop_map(|i| String::from_utf8_lossy(ALPHABET[pick(i, ALPHABET.len())]).to_string()),
             Just("$'".to_string()),
